@@ -891,6 +891,9 @@ static inline struct ubuf *ubuf_block_copy(struct ubuf_mgr *mgr,
     }
     int extract_size = new_size - extract_offset <= ubuf_size - extract_skip ?
                        new_size - extract_offset : ubuf_size - extract_skip;
+    if (extract_size <= 0)
+        return new_ubuf; /* nothing to copy */
+
     uint8_t *buffer;
     bool ret;
     if (unlikely(!ubase_check(ubuf_block_write(new_ubuf, extract_offset,
